@@ -1,11 +1,13 @@
 /-
   C04 — dt() maps every supported spelling of an instant to the same datetime.
   Property theorems only.  `Gen.num2dt`, `Gen.ym`, `Gen.ymd`, `Gen.ymdSwap`, `Gen.re_*` are GENERATED from the
-  current text of src/pyg_base/_dates.py on every run.  What goes through numpy / pandas (datetime64, Timestamp) and the
-  month-name spellings are decided by correspondence only.  The string clauses are about the dialect decision of
-  uk2dt / us2dt (strip, ambiguity test, swap / rejection) on top of the ASSUMED dateutil reading (`duResolve`, the scanner
-  `parseTokens`); the texts are quantified through independent predicates (`IsNumeral`, `TimeText`, `MatchesAmbiguity`),
-  and `ambiguous_iff` ties the hand-written matcher to the semantics of the source regex.
+  current text of src/pyg_base/_dates.py on every run; numpy / pandas timestamps are theorems about the hand-written integer
+  model PygModel/NpDate.lean (only np2dt's class dispatch is generated), month names about dateutil's own table (generated).
+  The string clauses are about what uk2dt / us2dt do (strip, `ambiguity.sub` = `slashes`, ambiguity test, swap / rejection) on
+  top of the ASSUMED dateutil reading (`duResolve`, the scanner `parseTokens`; for day-month-year triples only the text with two
+  `/` is assumed since C04-D4); the texts are quantified through independent predicates (`IsNumeral`, `TimeText`, `IsSepZone`,
+  `MatchesAmbiguity`, `MatchesPadded`), and `ambiguous_iff` / `slashes_iff` tie the hand-written matchers to the semantics of the
+  source regex.
 -/
 import PygModel.DateParse
 import PygProofs.Lemmas.BumpLemmas
@@ -731,6 +733,31 @@ theorem ymd_of_iso_text (uk : Bool) (y m d : Nat) (v : Valid y m d) (yy mm dd tm
   rw [iso_text uk y m d v yy mm dd tm hms us hyy hy4 hmm hm2 hdd hd2 vy vm vd ht]
   congr 1; rw [checkRange_ok]; exact ⟨by omega, by omega⟩
 
+theorem ymd_of_us_text (y m d : Nat) (v : Valid y m d) (a b yy tm : List Char) (s1 s2 : Char) (hms us : Int)
+    (ha : IsNumeral 2 a) (hb : IsNumeral 2 b) (hyy : IsNumeral 4 yy) (hy4 : yy.length = 4)
+    (va : digitsVal a = m) (vb : digitsVal b = d) (vy : digitsVal yy = y)
+    (h1 : isDateSep s1 = true) (h2 : isDateSep s2 = true) (ht : TimeText tm hms us) (h0 : 0 ≤ hms + us ∧ hms + us < DAYUS) :
+    ymdCs false (a ++ s1 :: (b ++ s2 :: (yy ++ tm))) = some (.ok (mkDate y m d)) := by
+  have hm := mkDate_day_in_range y m d v
+  apply ymd_of_text false _ y m d v (hms + us) h0
+  rw [us_text_gen y m d v a b yy tm s1 s2 hms us ha hb hyy hy4 va vb vy h1 h2 ht]
+  congr 1; rw [checkRange_ok]; exact ⟨by omega, by omega⟩
+
+theorem ymd_of_month_name_text (uk : Bool) (y m d : Nat) (v : Valid y m d) (w dd yy tm : List Char) (hms us : Int)
+    (hw : IsMonthName m w) (hdd : IsNumeral 2 dd) (hyy : IsNumeral 4 yy) (hy4 : yy.length = 4)
+    (vd : digitsVal dd = d) (vy : digitsVal yy = y) (ht : TimeText tm hms us) (h0 : 0 ≤ hms + us ∧ hms + us < DAYUS) :
+    (∀ s, s = ' ' ∨ s = '-' → ymdCs uk (dd ++ s :: (w ++ s :: (yy ++ tm))) = some (.ok (mkDate y m d)))
+    ∧ ymdCs uk (w ++ ' ' :: (dd ++ ',' :: ' ' :: (yy ++ tm))) = some (.ok (mkDate y m d))
+    ∧ ymdCs uk (w ++ ' ' :: (dd ++ ' ' :: (yy ++ tm))) = some (.ok (mkDate y m d)) := by
+  have hm := mkDate_day_in_range y m d v
+  have h := month_name_text uk y m d v w dd yy tm hms us hw hdd hyy hy4 vd vy ht
+  have e : checkRange (mkDate y m d + hms + us) = .ok (mkDate y m d + (hms + us)) := by
+    rw [checkRange_ok]; exact ⟨by omega, by omega⟩
+  refine ⟨fun s hs => ?_, ?_, ?_⟩
+  · apply ymd_of_text uk _ y m d v (hms + us) h0; rw [h.1 s hs, e]
+  · apply ymd_of_text uk _ y m d v (hms + us) h0; rw [h.2.1, e]
+  · apply ymd_of_text uk _ y m d v (hms + us) h0; rw [h.2.2, e]
+
 example : ymdCs true "13/01/2000 10:30".toList = some (.ok (mkDate 2000 1 13)) := eq_of_okView (by decide +kernel)
 
 /-! ### the model's matcher against the SEMANTICS of the `ambiguity` regex and of `int(t[:2]...)` -/
@@ -1018,6 +1045,18 @@ theorem greg_roundtrip_ord (n : Nat) (h1 : 1 ≤ n) (h2 : n ≤ 3652059) :
 theorem fields_of_date (y m d : Nat) (v : Valid y m d) : ymdOf (mkDate y m d) = ⟨y, m, d⟩ := ymdOf_mkDate y m d v
 
 /-! ### ymd() drops the time of day -/
+
+/-- `dt(date)`: the model function of the `datetime.date` branch (`datetime(t.year, t.month, t.day)`, `dtDate`, used by the driver's
+`date` op) returns midnight of that date — every date of years 1..9999 -/
+theorem dt_of_date (t : Int) (h0 : 0 ≤ t) (h1 : t < MAXUS) (hm : todOf t = 0) : dtDate t = .ok t := by
+  unfold dtDate; rw [ymd_drops_time' t h0 h1, hm, Int.sub_zero]
+
+theorem dt_of_date_ymd (y m d : Nat) (v : Valid y m d) : dtDate (mkDate y m d) = .ok (mkDate y m d) := by
+  have hr := mkDate_day_in_range y m d v
+  refine dt_of_date _ (by omega) (by unfold DAYUS at hr; omega) ?_
+  unfold todOf mkDate ofOrd DAYUS; omega
+
+example : dtDate (mkDate 2000 2 29) = .ok (mkDate 2000 2 29) := dt_of_date_ymd 2000 2 29 (by decide)
 
 /-- `ymd(t)` is midnight of the same day, for every representable datetime -/
 theorem ymd_drops_time (t : Int) (h0 : 0 ≤ t) (h1 : t < MAXUS) :
